@@ -92,7 +92,7 @@ static int pct_depth;
 static long pct_cp[16];
 static char *replay_str;
 static char *replay_pos;
-static int cas_permille, cv_permille;
+static int cas_permille, cv_permille, fx_permille;   /* fx: spurious futex return (EINTR) */
 static long max_steps = 20000, steps, forced_spin, last_steps = 300;
 static int status, finished, starting;
 
@@ -285,7 +285,7 @@ static void pick_next(void)
 		replay_pos = e;
 		n = threads[tid];
 		if (flag == 2) {
-			if (!(n->wait_kind == W_CV && mtx_get(n->cv_mutex)->owner == -1)) { end_run(VS_REPLAY_DIVERGED); return; }
+			if (!(n->wait_kind == W_CV && mtx_get(n->cv_mutex)->owner == -1) && n->wait_kind != W_FUTEX) { end_run(VS_REPLAY_DIVERGED); return; }
 		} else if (!enabled(n) || killed(n)) { end_run(VS_REPLAY_DIVERGED); return; }
 	} else {
 		if (ne == 0) {
@@ -299,6 +299,13 @@ static void pick_next(void)
 			for (int i = 0; i < nthreads; i++)
 				if (threads[i]->wait_kind == W_CV && mtx_get(threads[i]->cv_mutex)->owner == -1)
 					c[nc++] = threads[i];
+			if (nc) { n = c[rnd() % nc]; flag = 2; }
+		}
+		/* spurious return of a futex wait (signal without SA_RESTART: -1/EINTR, value unchanged) */
+		if (!n && fx_permille > 0 && (int)(rnd() % 1000) < fx_permille) {
+			T *c[MAXT]; int nc = 0;
+			for (int i = 0; i < nthreads; i++)
+				if (threads[i]->wait_kind == W_FUTEX && !killed(threads[i])) c[nc++] = threads[i];
 			if (nc) { n = c[rnd() % nc]; flag = 2; }
 		}
 		if (!n) {
@@ -336,7 +343,11 @@ static void pick_next(void)
 		}
 	}
 	if (++steps > max_steps) { end_run(VS_STEP_LIMIT); return; }
-	if (flag == 2) {
+	if (flag == 2 && n->wait_kind == W_FUTEX) {
+		/* the futex wait returns -1/EINTR although nobody woke it */
+		n->wait_kind = W_NONE;
+		n->woke_spurious = 1;
+	} else if (flag == 2) {
 		/* spurious wake: behaves as if signalled */
 		n->wait_kind = W_MUTEX;
 		n->wait_obj = n->cv_mutex;
@@ -405,7 +416,7 @@ void vs_reset(void)
 	nregs = 0; nvalnames = 0; nmtx = 0;
 	nthreads = 0;                 /* T structs of earlier runs are leaked on purpose (parked threads) */
 	steps = 0; forced_spin = 0; status = 0; finished = 0;
-	cas_permille = 0; cv_permille = 0;
+	cas_permille = 0; cv_permille = 0; fx_permille = 0;
 	max_steps = 20000;
 	policy = 0;
 	free(replay_str); replay_str = NULL; replay_pos = NULL;
@@ -465,6 +476,7 @@ void vs_policy_prefix(const char *schedule)
 }
 void vs_trace_enabled(int on) { trace_enabled = on; }
 void vs_set_spurious(int c, int v) { cas_permille = c; cv_permille = v; }
+void vs_set_spurious_futex(int f) { fx_permille = f; }
 void vs_set_max_steps(long n) { max_steps = n; }
 void vs_kill_after(int tid, long k) { if (tid >= 0 && tid < nthreads) threads[tid]->kill_after = k; }
 
@@ -748,12 +760,16 @@ long __wrap_syscall(long n, long a1, long a2, long a3, long a4, long a5, long a6
 		ev_add("T%d futex-wait %s %d blocked", me->tid, loc, (int)val);
 		me->wait_kind = W_FUTEX;
 		me->wait_obj = addr;
+		me->woke_spurious = 0;
 		me->last_ld_addr = NULL; me->same_loads = 0;
 		pick_next();
 		wait_turn(me);
-		ev_add("T%d futex-resume %s", me->tid, loc);
+		int spurious = me->woke_spurious;
+		me->woke_spurious = 0;
+		ev_add("T%d futex-resume %s%s", me->tid, loc, spurious ? " spurious" : "");
 		me->wait_obj = NULL;
 		__real_pthread_mutex_unlock(&G);
+		if (spurious) { errno = EINTR; return -1; }
 		return 0;
 	}
 	if (op == FUTEX_WAKE) {
